@@ -309,6 +309,11 @@ fn gen_tags(rng: &mut Rng, n: usize) -> Vec<u32> {
 }
 
 fn gen_value(rng: &mut Rng, ascii: bool, max: usize) -> Vec<u8> {
+    if max >= 600 && rng.chance(1, 400) {
+        // a value right around 64 KiB or 255 / 256 bytes
+        let len = *rng.pick(&[255usize, 256, 257, 65_535, 65_536, 65_537]);
+        return if ascii { vec![b'q'; len] } else { gen::payload(rng, len, gen::Style::Uniform) };
+    }
     let len = match rng.below(8) {
         0..=1 => 0,
         2..=4 => rng.range(1, 8),
